@@ -66,13 +66,13 @@ Proof.
       injection H as <- <-. specialize (IH _ _ eq_refl). cbn [length]. lia.
 Qed.
 
-Lemma super_depth_go_total : forall fuel s cnt suf,
-  (length s < fuel)%nat -> super_depth_go fuel s cnt suf <> None.
+Lemma super_depth_go_total : forall fuel s cnt,
+  (length s < fuel)%nat -> super_depth_go fuel s cnt <> None.
 Proof.
-  induction fuel as [|f IH]; intros s cnt suf Hl; [lia|].
+  induction fuel as [|f IH]; intros s cnt Hl; [lia|].
   cbn [super_depth_go].
-  destruct (split_once_str s_super_dot s) as [[a post]|] eqn:E; [|discriminate].
-  apply IH. apply split_once_str_length in E. unfold s_super_dot in E. cbn [length] in E. lia.
+  destruct (strip_prefix s_super_dot s) as [post|] eqn:E; [|discriminate].
+  apply IH. apply strip_prefix_length in E. unfold s_super_dot in E. cbn [length] in E. lia.
 Qed.
 
 Theorem super_depth_total : forall s, super_depth s <> None.
